@@ -132,7 +132,9 @@ C14_2D(tk) ==
     columns_scale_mean_pairwise_indices |-> [k |-> "touch", nd |-> 0, v |-> 0] ]
 C14_1D(tk) ==
   [ scale_mean    |-> IF SNone(tk) THEN NoneV ELSE Num0(Div(R(SScaleS1(tk)), R(SScaleN(tk)))),
-    scale_median  |-> IF SNone(tk) THEN NoneV ELSE Num0(MedianOf(DimR, SScaleCnt(tk))),
+    scale_median  |-> IF SNone(tk) THEN NoneV
+                      ELSE IF MedianOf(DimR, SScaleCnt(tk)) = AnyVal THEN OpenV
+                      ELSE Num0(MedianOf(DimR, SScaleCnt(tk))),
     scale_std_dev |-> IF SNone(tk) THEN NoneV
                       ELSE [k |-> "sqrt", nd |-> 0, v |-> SScaleVarR(tk), scale |-> One],
     scale_std_err |-> IF SNone(tk) THEN NoneV
